@@ -119,6 +119,7 @@ def check(model, rep, tier):
   rep.check(o, 'RD-TRANSFER', '%s:ignorable-nodes-identity' % vn.site,
             'nodes without a scope (break/continue/raise/pass) must pass their '
             'input through', {'counterexample': cex}, line=vn.node.lineno)
+  rules_df.check_loop_target_kill(model, rep, 'RD-TRANSFER')
   o, cex = equivalent(inn.f, join)
   rep.check(o, 'RD-TRANSFER', '%s:in-is-the-join' % vn.site,
             'self.in_[node] must be exactly the joined predecessor state',
